@@ -221,9 +221,12 @@ fn to_command(cmd: &Cmd) -> TerminalCommand {
             strike: *strike,
         }),
         Cmd::FaceGet => TerminalCommand::FaceGet,
-        Cmd::DecModeSet { enable, mode } => TerminalCommand::DecModeSet {
-            enable: *enable,
-            mode: dec(*mode),
+        // the three modes with a constructor of their own are built through it
+        Cmd::DecModeSet { enable, mode } => match dec(*mode) {
+            DecMode::AltScreen => TerminalCommand::altscreen_set(*enable),
+            DecMode::VisibleCursor => TerminalCommand::visible_cursor_set(*enable),
+            DecMode::AutoWrap => TerminalCommand::auto_wrap_set(*enable),
+            mode => TerminalCommand::DecModeSet { enable: *enable, mode },
         },
         Cmd::DecModeGet(mode) => TerminalCommand::DecModeGet(dec(*mode)),
         Cmd::CursorGet => TerminalCommand::CursorGet,
